@@ -343,9 +343,9 @@ def run(check, repo: Repo) -> None:
             else:
                 raise AnalysisError(f"_build_edges[{label}]: edge pair {txt} not recognised")
         for b_ in bad:
-            check.violated("C17-R4", f"_build_edges[{label}]: neighbour pairs stay within their row/column", b_, mod.line(wa))
+            check.violated("C17-R4", f"_build_edges[{label}]: neighbour pairs stay within their row/column", b_, mod.line(wa), definite=True)   # abstract evaluation of the pair
         check.decide(dirs == {"horizontal", "vertical"} and not bad, "C17-R4", f"_build_edges[{label}]: both grid directions generate edges between true 4-neighbours", str(sorted(dirs)),
-                     mod.line(wa), fail_detail=f"directions covered: {sorted(dirs)}" + (f"; {bad}" if bad else ""))
+                     mod.line(wa), fail_detail=f"directions covered: {sorted(dirs)}" + (f"; {bad}" if bad else ""), definite=bool(bad))
     idx = [unparse(x) for x in definitions(be, "idx") if isinstance(x, ast.AST)]
     check.decide(idx == ["torch.arange(N).reshape(H, W)"], "C17-R4", "_build_edges: pixel ids are the row-major flat indices of the (H, W) grid", str(idx), mod.line(be), fail_detail=str(idx))
     t = unparse(ae)
